@@ -41,7 +41,7 @@ fn snap(n: usize, m: usize) -> (usize, usize) {
 
 pub fn run_dyn(case: &Case, cx: &mut Ctx) {
     let (n, m) = caps2_of(case);
-    match (case.engine, case.kind % 6) {
+    match (case.engine, case.kind % mmv_base::case::NKINDS) {
         (Engine::SetAlg, 0) => all_pairs!(setalg::run, Tracked, n, m, case, cx),
         (Engine::SetAlg, 2) => {
             let (n, m) = snap(n, m);
